@@ -141,6 +141,8 @@ class MultiCategoricalTensorMapper(TensorMapper):
             data=pd.RangeIndex(0, len(categories)),
         )
         self.index = pd.concat((self.index, (pd.Series([-1], index=[-1]))))
+        # Keep the lookup keys as objects even if there is no category.
+        self.index.index = self.index.index.astype(object)
 
     @staticmethod
     def split_by_sep(row: str | Iterable | None, sep: None | str) -> set[Any]:
